@@ -28,6 +28,18 @@ CLAIMED = {
    text="ValidChain => tiling is checked by TLC on Scopes.tla. Binding: calculate_scopes(n), compiled from the example's source by path, is run for every n up to 600 (1024 thorough) and sampled n up to 2^20; TLC validates each result as a valid chain of n scopes (starts at (0,1), ends at (48,49), contiguous, monotone, only valid positions); for sampled n the chain is executed on the real evaluator and must add up to the unscoped run.",
    note="Trusted: harness projection, TLC. The f32 arithmetic is observed per n, not modelled, so worker counts beyond those run are not covered.",
    technique="TLA+ Scopes spec with TLC; trace validation of calculate_scopes outputs", ref="DESIGN.md 5/C16"),
+ "C05": dict(
+   text="TLC checks the laws of the denotation in Notation.tla (the 169 rank pairs partition the 1326 combos, sizes 6/4/12, 'X+' and spans are unions of singles, token text reads back as the token, last-writer-wins on lists) and exports all 3,796 well-formed token bodies. Binding: every body (x 2 weight literals quick, x 9 thorough) is parsed by the real code as a token and as a one-token range, plus random lists of overlapping tokens with spaces and the empty string; TLC recomputes the denotation and compares combo for combo and weight bit for weight bit. Exhaustive over tokens, sampled over lists.",
+   note="Trusted: Notation.tla's reading of the standard notation, Rust's own f32 parser for the expected weight bits of a literal, harness projection, TLC.",
+   technique="TLA+ denotation spec checked with TLC; TLC-exported token set replayed on the parser; trace validation", ref="DESIGN.md 5/C05"),
+ "C09": dict(
+   text="TLC explores the byte-accurate parser model (ParserShape) for every string up to length 4 (5 thorough) over a 22-character alphabet incl. 2-, 3- and 4-byte characters: no panic reachable, no invalid value let through. Binding: every string up to length 3 (4 thorough) over the same alphabet, shape-valid tokens over five ranks with 17 weight suffixes and their single-character edits, comma lists, random Unicode and over-long input are fed to the six real parsers, and every Ok value through expansion, formatting, splitting and a two-position enumeration; TLC validates that nothing panicked and reports (without a verdict) where the implementation-shaped model predicts a different outcome.",
+   note="Trusted: catch_unwind as the observation of a panic, harness, TLC. Strings are bounded/sampled; acceptance of malformed tokens is not constrained.",
+   technique="TLA+ byte-level parser model checked with TLC; trace validation of real parser outcomes", ref="DESIGN.md 5/C09"),
+ "C10": dict(
+   text="ParserShape's OnlyValid invariant (no weight above 1, no equal-card pair accepted) is checked by TLC on all bounded strings. Binding: every Ok result of the C05 corpus (all well-formed tokens x literals, lists) and of the C09 corpus (incl. suffixes :1.5, :1.75, :1.00000001, :2, equal-card pairs, edits, Unicode) is recorded with card ids and weight bits; TLC checks two different cards and weight bits within [0, 1.0]; showdowns enumerated from the parsed ranges must have distinct cards and a probability in [0,1].",
+   note="Trusted: f32::to_bits as the lossless view of a weight (non-negative floats order like their bits), harness, TLC. Strings are bounded/sampled.",
+   technique="TLA+ parser model + ValidRange invariant with TLC; trace validation of parsed values", ref="DESIGN.md 5/C10"),
  "C07": dict(
    text="Category boundaries of the class numbering are derived from the rules by TLC (MCPoker); hand_type() of concrete hands for every key - hence every one of the 4,824 reachable classes including the first and last of each category - is validated by TLC against the category of Eval7(cards), and hand_type() is compared on all 133,784,560 sets with the TLC-exported categories. Exhaustive.",
    note="Trusted: Poker.tla, harness projection (category compared through its Debug name), TLC.",
